@@ -1,7 +1,7 @@
 (* C14 -- include_subclasses preserves the exact subclass through a base-typed round trip. *)
-From V.Model Require Import Base Disambig Subclasses.
-From V.Gen Require Import DisSrc.
-From V.Proofs Require Import DisambigProofs SubclassesProofs.
+From V.Model Require Import Base Disambig Subclasses Tagged SubUnion.
+From V.Gen Require Import DisSrc SubSrc.
+From V.Proofs Require Import DisambigProofs SubclassesProofs TaggedProofs SubUnionProofs.
 From Coq Require Import Permutation.
 
 (* Automatic variant.  [classes] is the whole tree, each class with ALL its attributes (inherited ones
@@ -27,10 +27,48 @@ Theorem C14_automatic_exact_class :
 Proof. intros. eapply auto_resolve_exact; eassumption. Qed.
 Print Assumptions C14_automatic_exact_class.
 
-(* The union-strategy variant (two-pass registration around the circular reference) is not modelled:
-   it is decided by the SUB lane's oracle only, where finding F16 (a leaf class under forbid_extra_keys
-   rejects the tag its own unstructure hook adds) is reported as KNOWN-FINDING.  Hence `_partial`
-   in the claim. *)
+(* Union-strategy variant (configure_tagged_union), the two-pass registration of _include_subclasses_with_union_strategy
+   (Model/SubUnion.v; the two facts it depends on -- descendants, not only direct children, make a class a parent; the second
+   pass goes ancestors first -- are read off the source by T1: src_sub_transitive, src_sub_anc_first).  For ANY list of
+   configured classes without repetition (the root and the `subclasses` argument in any order, possibly skipping intermediate
+   classes), any tag generator that gives distinct classes distinct tags, any tag name that is not an attribute of the
+   instance, forbid_extra_keys on or off: for every configured class K and every configured PROPER descendant x of K,
+   unstructuring an instance of x as K gives x's own dict plus exactly the tag, and structuring that as K runs x's own
+   first-pass hook on x's own dict (the tag removed from a copy when extra keys are forbidden, left in place and ignored
+   otherwise); likewise for an instance of K itself whenever K has a configured proper descendant. *)
+Theorem C14_union_strategy_exact_class :
+  forall (V : Type) (veq : V -> V -> bool) (classes : list N) (is_desc is_child : N -> N -> bool) (tag : N -> V) (tag_name : N)
+         (forbid : bool) (fields : N -> list N) (k x : N) (own : list (N * V)),
+    (forall v, veq v v = true) -> NoDup classes -> (forall c, is_desc c c = true) ->
+    (forall a b, In a classes -> In b classes -> veq (tag a) (tag b) = true -> a = b) ->
+    In k classes -> In x classes -> x <> k -> is_desc x k = true -> ~ In tag_name (map fst own) ->
+    (un_sub V classes is_desc is_child tag tag_name forbid fields src_sub_transitive k x own = Ok (own ++ [(tag_name, tag x)]) /\
+     st_sub V veq classes is_desc is_child tag tag_name forbid src_sub_transitive src_sub_anc_first k (own ++ [(tag_name, tag x)])
+       = Ok (x, if forbid then own else own ++ [(tag_name, tag x)])) /\
+    (un_sub V classes is_desc is_child tag tag_name forbid fields src_sub_transitive k k own = Ok (own ++ [(tag_name, tag k)]) /\
+     st_sub V veq classes is_desc is_child tag tag_name forbid src_sub_transitive src_sub_anc_first k (own ++ [(tag_name, tag k)])
+       = Ok (k, if forbid then own else own ++ [(tag_name, tag k)])).
+Proof.
+  intros V veq classes is_desc is_child tag tag_name forbid fields k x own Hr Hn Hd Hi Hk Hx Hne Hxk Hf.
+  change src_sub_transitive with true. change src_sub_anc_first with true. split.
+  - now apply sub_union_roundtrip.
+  - now apply (sub_union_roundtrip_self V veq Hr classes is_desc is_child tag tag_name forbid fields Hn Hd Hi k x own).
+Qed.
+Print Assumptions C14_union_strategy_exact_class.
+
+(* A configured LEAF class structured as itself keeps its first-pass hook and receives the payload WITH the tag its own
+   unstructure hook added -- harmless without forbid_extra_keys, rejected with it: finding F16 (open), stated here as what the
+   code does. *)
+Theorem C14_union_strategy_leaf_keeps_the_tag :
+  forall (V : Type) (classes : list N) (is_desc is_child : N -> N -> bool) (tag : N -> V) (tag_name : N)
+         (forbid : bool) (fields : N -> list N) (veq : V -> V -> bool) (k other : N) (own : list (N * V)),
+    In k classes -> In other classes -> has_subclasses classes is_desc is_child src_sub_transitive other = true ->
+    length (sub_members classes is_desc k) = 1%nat -> ~ In tag_name (map fst own) ->
+    un_sub V classes is_desc is_child tag tag_name forbid fields src_sub_transitive k k own = Ok (own ++ [(tag_name, tag k)]) /\
+    st_sub V veq classes is_desc is_child tag tag_name forbid src_sub_transitive src_sub_anc_first k (own ++ [(tag_name, tag k)])
+      = Ok (k, own ++ [(tag_name, tag k)]).
+Proof. intros. change src_sub_transitive with true in *. change src_sub_anc_first with true. eapply sub_union_leaf; eassumption. Qed.
+Print Assumptions C14_union_strategy_leaf_keeps_the_tag.
 
 (* non-vacuity: Base(a) <- Mid(a, b) <- Leaf(a, b, c), and a sibling Other(a, d) *)
 Local Open Scope N_scope.
@@ -47,3 +85,14 @@ Example C14_nonvacuous :
   auto_resolve (fun l => l) (fun l => l) src_dis_skip_noninit t14 d14 3 2 [10; 11; 12] = Ok 3 /\
   auto_resolve (fun l => l) (fun l => l) src_dis_skip_noninit t14 d14 3 1 [10] = Ok 1.
 Proof. vm_compute. repeat split. Qed.
+
+(* non-vacuity, union strategy: the chain 1 > 2 > 3 with a sibling 4; only the grand-child and the sibling are configured next to
+   the root (the subclasses tuple skips class 2): the root's union still reaches class 3 (finding F32, repaired) *)
+Definition kd14 (x k : N) : bool := N.eqb x k || N.eqb k 1 || (N.eqb k 2 && N.eqb x 3).
+Definition kc14 (x k : N) : bool := (N.eqb k 1 && (N.eqb x 2 || N.eqb x 4)) || (N.eqb k 2 && N.eqb x 3).
+Example C14_union_nonvacuous :
+  un_sub N [1; 3; 4] kd14 kc14 (fun c => 100 + c) 99 true (fun _ => [10]) src_sub_transitive 1 3 [(10, 5); (12, 6)]
+    = Ok [(10, 5); (12, 6); (99, 103)] /\
+  st_sub N N.eqb [1; 3; 4] kd14 kc14 (fun c => 100 + c) 99 true src_sub_transitive src_sub_anc_first 1 [(10, 5); (12, 6); (99, 103)]
+    = Ok (3, [(10, 5); (12, 6)]).
+Proof. vm_compute. split; reflexivity. Qed.
